@@ -88,3 +88,10 @@ package text
 //@   ensures line_matrix_and_ctm_untouched: e.gs.Text.TextLineMatrix == old(e.gs.Text.TextLineMatrix) && e.gs.CTM == old(e.gs.CTM) && e.gs.Text.Leading == old(e.gs.Text.Leading)
 //@   loop 0:
 //@     invariant e.gs.Text.TextLineMatrix == old(e.gs.Text.TextLineMatrix) && e.gs.CTM == old(e.gs.CTM) && e.gs.Text.Leading == old(e.gs.Text.Leading)
+
+// ---- C07: which fonts of a resource dictionary get parsed and registered depends on the dictionary alone, never on what
+// was registered before (resource names are local to their dictionary: a form's /F1 is not the page's /F1) ----
+//@ func (*Extractor) RegisterFontsFromResources
+//@   property C07
+//@   flags frameonly
+//@   noread fonts
